@@ -182,6 +182,9 @@ class Runner:
             for var, val in ns.globals.items():
                 if isinstance(val, (list, dict, set)) and not var.startswith('__'):
                     it.owned[id(val)] = f'module-state:{mname}.{var}'
+        # so are mutable default arguments (evaluated once, when the def was executed)
+        for oid, (obj, label) in getattr(it, 'default_objects', {}).items():
+            it.owned.setdefault(oid, label)
         from .vec import Backing
         start = Backing.counter
         try:
